@@ -20,6 +20,10 @@ def main():
             for n in ast.parse(src).body:
                 if isinstance(n, ast.Assign) and getattr(n.targets[0], 'id', None) == 'MANIFEST':
                     meta = ast.literal_eval(n.value)
+        ready = set(open(os.path.join(ROOT, 'ready.txt')).read().split())
+        if meta is not None and not meta.get('not_applicable') and pid not in ready:
+            na.append(dict(property_id=pid, reason='check under construction in this round (contracts exist but are not yet registered); no check is claimed'))
+            continue
         if meta is None or meta.get('not_applicable'):
             na.append(dict(property_id=pid, reason=(meta or {}).get('not_applicable', 'not built yet in this round (see DESIGN.md 5 for the plan); no check is claimed')))
             continue
